@@ -228,6 +228,8 @@ def one_run(params):
             extra.append("-c")
         if params["opt_b"]:
             extra += ["-b", "5353"]
+        if params["idx"] % 5 == 3:
+            extra += ["-D"] * (1 + (params["idx"] // 5) % 2)       # debug output on (-D / -DD): every datagram is also formatted for printing
         dom = scen.DOMAIN
         srvdom = "*." + dom.split(".", 1)[1] if params["wild"] else dom
         srv = sim.server(domain=srvdom, tun=params["tun"], extra=extra)
